@@ -109,6 +109,13 @@ struct T3 {  // deleted entry in the middle, id on the U32 boundary
   nop::Entry<B, 65536> b;
   NOP_TABLE_NS("T3", T3, a, d, b);
 };
+template <class A, class B>
+struct T3A {  // the previous revision of T3: same name (hash) and ids, entry 5 still active
+  nop::Entry<A, 127> a;
+  nop::Entry<std::string, 5> d;
+  nop::Entry<B, 65536> b;
+  NOP_TABLE_NS("T3", T3A, a, d, b);
+};
 template <class A>
 struct T0H {  // explicit hash, id above 2^32
   nop::Entry<A, 0x100000001ULL> a;
@@ -321,6 +328,17 @@ struct Br<vt::T3<A, B>> {
   static std::string name() { return "T3<" + Br<A>::name() + "," + Br<B>::name() + ">"; }
   static void to(const T& x, Val& v) { v = Val(); v.kids.resize(3); entry_to<A>(x.a, v.kids[0]); entry_to<B>(x.b, v.kids[2]); }
   static void from(const Val& v, T& x) { entry_from<A>(v.kids[0], x.a); entry_from<B>(v.kids[2], x.b); }
+};
+template <class A, class B>
+struct Br<vt::T3A<A, B>> {
+  using T = vt::T3A<A, B>;
+  static Sch sch() {
+    return tab_sch(siphash24_cstr("T3", kTableKey0, kTableKey1), {Br<A>::sch(), Br<std::string>::sch(), Br<B>::sch()},
+                   {127, 5, 65536}, {0, 0, 0}, name());
+  }
+  static std::string name() { return "T3A<" + Br<A>::name() + "," + Br<B>::name() + ">"; }
+  static void to(const T& x, Val& v) { v = Val(); v.kids.resize(3); entry_to<A>(x.a, v.kids[0]); entry_to<std::string>(x.d, v.kids[1]); entry_to<B>(x.b, v.kids[2]); }
+  static void from(const Val& v, T& x) { entry_from<A>(v.kids[0], x.a); entry_from<std::string>(v.kids[1], x.d); entry_from<B>(v.kids[2], x.b); }
 };
 template <class A>
 struct Br<vt::T0H<A>> {
